@@ -14,6 +14,7 @@ func Run(r *core.Report, env *build.Env) {
 		"src/scanner/zz_verif_c07.go":            "scanner/zz_verif_c07.go",
 		"src/ddperror/zz_verif_c07.go":           "ddperror/zz_verif_c07.go",
 		"src/parser/zz_verif_c07.go":             "parser/zz_verif_c07.go",
+		"src/parser/zz_verif_c09b.go":            "parser/zz_verif_c09b.go",
 		"src/parser/typechecker/zz_verif_c07.go": "typechecker/zz_verif_c07.go",
 	}}
 	if !s.Load() {
@@ -32,6 +33,7 @@ func Run(r *core.Report, env *build.Env) {
 		{Pkg: "src/ddperror", Func: "VerifC07Render3", Bound: "excerpt renderer: all sources of 3 characters over the alphabet, every in-file range"},
 		{Pkg: "src/parser", Func: "VerifC07ParserFlag", Bound: "parser.errVal / warn: all prior flag values and both levels"},
 		{Pkg: "src/parser/typechecker", Func: "VerifC07SilentRestores", Bound: "Typechecker.EvaluateSilent: all prior flag values"},
+		{Pkg: "src/parser", Func: "VerifC07CallSiteFlags", Bound: "the call-site programs of C09 (populations of up to 2 of 11 alias declarations incl. a generic one whose instantiation fails, x 8 argument forms per position): faulty flag against delivered errors"},
 		{Pkg: "src/parser", Func: "VerifC07ImportDiagnostics", Bound: "two modules in memory: every subset of 4 library and 3 local declarations x 5 import forms x both orders; all diagnostics of the main module"},
 	}
 	if r.Tier == "thorough" {
